@@ -339,8 +339,21 @@ pub fn enumerate(family: &str, thorough: bool, f: &mut dyn FnMut(&str, Vec<u8>))
             // offset (messages quote, shorten and escape the offending text)
             let chars = ["\u{e9}", "\u{20ac}", "\u{1F600}", "\u{85}", "\u{9f}", "\u{7f}", "\u{1b}", "\u{200b}", "\u{feff}", "\t"];
             let max_pad = if thorough { 300 } else { 130 };
+            // every length up to max_pad, and the lengths around every power of two up to 8 KiB (where a buffer, a cut-off
+            // or a block boundary would be)
+            let mut pads: Vec<usize> = (0..max_pad).collect();
+            for p2 in [256usize, 512, 1024, 2048, 4096, 8192] {
+                pads.extend(p2 - 8..p2 + 6);
+            }
             for ch in chars {
-                for pad in 0..max_pad {
+                for &pad in &pads {
+                    // text that never ends (an opened comment, an opened string) is one offending piece up to the end of the input
+                    if pad >= max_pad || pad % 4 == 0 {
+                        let tail = ch.repeat(3);
+                        f("comment-never-closed", format!("FUNCTION_BLOCK F VAR x : INT ; END_VAR x := 1 ; (*{}{}{}", "x".repeat(pad), ch, tail).into_bytes());
+                        f("string-never-closed", format!("FUNCTION_BLOCK F VAR s : STRING ; END_VAR s := '{}{}{}", "x".repeat(pad), ch, tail).into_bytes());
+                        f("wide-string-never-closed", format!("FUNCTION_BLOCK F VAR s : WSTRING ; END_VAR s := \"{}{}{}", "x".repeat(pad), ch, tail).into_bytes());
+                    }
                     let body = format!("{}{}", "x".repeat(pad), ch);
                     f("string-where-none-is-allowed", format!("FUNCTION_BLOCK F VAR x : INT ; END_VAR x := 1 '{}' ; END_FUNCTION_BLOCK", body).into_bytes());
                     f("comment-where-none-is-allowed", format!("FUNCTION_BLOCK F VAR x : INT ; END_VAR x := INT(* {} *)#5 ; END_FUNCTION_BLOCK", body).into_bytes());
